@@ -233,6 +233,9 @@ def run(ctx):
     ctx.assumptions += ['per-doctest verdicts are by construction (C02/C03 decide them); the zero-argument-function fallback for unmatched names is outside the model']
 
 
+_EXIT_SEARCH = {}
+
+
 def find_exit_violation(ctx, ex, obs):
     """the exit value is not the model's: look for a run where the PROCESS exit status breaks
     'non-zero iff some doctest failed' (the OS keeps the low 8 bits of the value)"""
@@ -240,6 +243,10 @@ def find_exit_violation(ctx, ex, obs):
         return 'main() did not return an int'
     if (ex != 0) != (obs['n_failed'] > 0):
         return 'non-zero iff failed is violated in-process'
+    # (the search below does not depend on the run that disagreed: it is made once per check, whatever the number of disagreements)
+    if 'answer' in _EXIT_SEARCH:
+        return _EXIT_SEARCH['answer']
+    _EXIT_SEARCH['answer'] = None
     tmp = tempfile.mkdtemp(prefix='xdverif_c10x_')
     try:
         for nfail in (256, 512):
@@ -250,7 +257,8 @@ def find_exit_violation(ctx, ex, obs):
             p = subprocess.run([sys.executable, '-m', 'xdoctest', path, 'all', '--analysis', 'static'], cwd=tmp, env=env,
                                stdout=subprocess.PIPE, stderr=subprocess.STDOUT)
             if p.returncode == 0:
-                return 'python -m xdoctest on a module with %d failing doctests exits with status 0' % nfail
+                _EXIT_SEARCH['answer'] = 'python -m xdoctest on a module with %d failing doctests exits with status 0' % nfail
+                return _EXIT_SEARCH['answer']
     finally:
         shutil.rmtree(tmp, ignore_errors=True)
     return None
